@@ -7,7 +7,8 @@ use crate::shim::*;
 use crate::util::*;
 use crate::wire::{self, PVal, Param};
 
-const NEAR_MISS: [&str; 30] = [
+const NEAR_MISS: [&str; 36] = [
+    "SELECT 1\0", "a\0b", "\0", "USE db\0", "SELECT @@max_allowed_packet\0", "x\0\0",
     "/* app=orm */ SELECT @@max_allowed_packet", "/* x */USE db", "/*!40101 SET NAMES utf8 */", "/**/", "/* x */ select 1", "-- c\nSELECT @@x", "# c\nUSE db", "(SELECT @@x)", ";USE db", "/*!40101 SET NAMES utf8 */;", "/* unterminated SELECT @@x", "/* a */ /* b */ USE `db`;",
     "SELECT @x", "SELECT @", "SELECT  @@x", "select@@x", "SELECT@@x", " SELECT @@x", "Select 1", "USER()", "USEfoo", "used", "use", "us", "USE", "u", "SELECT",
     "select @", "usefoo", "SELECT @ @x",
@@ -22,7 +23,7 @@ fn ident(rng: &mut Rng) -> String {
 
 fn rand_text(rng: &mut Rng) -> Vec<u8> {
     let n = rng.range(1, 60) as usize;
-    let pool: Vec<char> = "abcxyz SELECT@`;'\"\\\t\n()*=,.0123456789éßж数∑𝄞".chars().collect();
+    let pool: Vec<char> = "\0abcxyz SELECT@`;'\"\\\t\n()*=,.0123456789éßж数∑𝄞".chars().collect();
     let mut s: String = (0..n).map(|_| *rng.pick(&pool)).collect();
     // keep clear of the built-in prefixes: those have their own generator
     while s.starts_with("SELECT @@") || s.starts_with("select @@") || s.starts_with("USE ") || s.starts_with("use ") {
